@@ -84,7 +84,7 @@ def affine(draw, dim, allow_reflection=True):
 
 @st.composite
 def recipes2d(draw, types=T2D, affine_ok=True, perm_ok=True, reflection=True, hmin=4, hmax=9,
-              nmax=6):
+              nmax=6, bend_ok=False):
     et = draw(st.sampled_from(types))
     verts = draw(polygons(3, nmax))
     organised = draw(st.booleans()) if len(verts) in (3, 4) else False
@@ -93,12 +93,17 @@ def recipes2d(draw, types=T2D, affine_ok=True, perm_ok=True, reflection=True, hm
     h = draw(st.integers(hmin, hmax)) / 10.0 * (1.0 if o <= 2 else 1.6)
     A, b = draw(affine(2, reflection)) if affine_ok else (None, None)
     perm = draw(st.one_of(st.none(), st.integers(0, 999))) if perm_ok else None
-    return dict(verts=verts, h=round(h, 3), elemType=et, organised=organised, extrude=None, layers=0,
-                A=A, b=b, perm=perm, orphans=0)
+    r = dict(verts=verts, h=round(h, 3), elemType=et, organised=organised, extrude=None, layers=0,
+             A=A, b=b, perm=perm, orphans=0)
+    if bend_ok and draw(st.integers(0, 2)) == 0:
+        # curved mesh: every node moved by a smooth quadratic map (second-order and higher elements get curved sides, as on a
+        # disc or around a hole). NOT supported by exact_integral / c09 Geometry: only for checks that do not need them
+        r["bend"] = draw(st.sampled_from([-0.12, 0.08, 0.15]))
+    return r
 
 
 @st.composite
-def recipes3d(draw, types=T3D, affine_ok=True, perm_ok=True, reflection=True, nmax=5, taper_ok=False):
+def recipes3d(draw, types=T3D, affine_ok=True, perm_ok=True, reflection=True, nmax=5, taper_ok=False, bend_ok=False):
     et = draw(st.sampled_from(types))
     verts = draw(polygons(3, nmax))
     organised = draw(st.booleans()) if len(verts) in (3, 4) else False
@@ -121,6 +126,8 @@ def recipes3d(draw, types=T3D, affine_ok=True, perm_ok=True, reflection=True, nm
         # longer translates of their base:
         # NOT supported by exact_integral / c09 Geometry, only for checks that do not need them
         r["taper"] = draw(st.sampled_from([-0.4, 0.25, 0.6]))
+    elif bend_ok and draw(st.integers(0, 2)) == 0:
+        r["bend"] = draw(st.sampled_from([-0.12, 0.08, 0.15]))  # see recipes2d
     return r
 
 
@@ -204,13 +211,19 @@ def length_unit(recipe: dict) -> float:
 
 
 def build(recipe: dict) -> Mesh:
-    base = {k: recipe[k] for k in recipe if k not in ("A", "b", "perm", "orphans", "taper")}
+    base = {k: recipe[k] for k in recipe if k not in ("A", "b", "perm", "orphans", "taper", "bend")}
     mesh = _gmsh_mesh(_hash(base))
     A, b, perm, orph = recipe.get("A"), recipe.get("b"), recipe.get("perm"), recipe.get("orphans", 0)
-    taper = recipe.get("taper")
-    if A is None and perm is None and not orph and not taper:
+    taper, bend = recipe.get("taper"), recipe.get("bend")
+    if A is None and perm is None and not orph and not taper and not bend:
         return mesh.copy()
     coord = np.array(mesh.coord, float)
+    if bend:
+        x, y, z = coord[:, 0].copy(), coord[:, 1].copy(), coord[:, 2].copy()
+        coord[:, 0] = x + float(bend) * (y * y - 0.5 * z * z)
+        coord[:, 1] = y + float(bend) * (0.5 * x * x - x * y)
+        if recipe.get("extrude"):
+            coord[:, 2] = z + float(bend) * (x * y + 0.5 * y * z)
     if taper:
         e = np.array(recipe["extrude"], float)
         t = coord[:, 2] / e[2]
@@ -296,7 +309,7 @@ def exact_integral(recipe, f, deg: int) -> float:
     """integral over the recipe's domain (after the affine map) of f(x,y,z) (vectorised),
     exact for polynomials of total degree <= deg.  Fan triangulation + Duffy/Gauss-Legendre;
     extrusion direction by Gauss-Legendre."""
-    assert not recipe.get("taper"), "exact_integral does not handle tapered recipes"
+    assert not recipe.get("taper") and not recipe.get("bend"), "exact_integral does not handle tapered / curved recipes"
     verts, ex, A3, b3 = transformed_domain(recipe)
     n = deg // 2 + 2
     xg, wg = np.polynomial.legendre.leggauss(n)
